@@ -5,6 +5,14 @@ import numpy as np
 # ******* Conv tools *******
 # **************************
 
+def check_geometry(kernel_size, stride, padding, dilation):
+    """ Sliding windows need integer kernel sizes, strides and dilations >= 1 and integer paddings >= 0 """
+    for name, value, lowest in (("kernel_size", kernel_size, 1), ("stride", stride, 1), ("padding", padding, 0), ("dilation", dilation, 1)):
+        value = np.asarray(value)
+        if not np.issubdtype(value.dtype, np.integer) or (value < lowest).any():
+            raise ValueError(f"{name} must be an integer >= {lowest}, but got {value.tolist()}")
+
+
 def get_conv1d_output_size(input_length:int, kernel_size:int, stride:int, padding:int, dilation:int) -> int:
     """
     Computes the output size of a 1d convolution.
@@ -19,6 +27,7 @@ def get_conv1d_output_size(input_length:int, kernel_size:int, stride:int, paddin
     Returns:
         int: Output size
     """
+    check_geometry(kernel_size, stride, padding, dilation)
     length_padded = input_length + 2 * padding
     num_windows = int(np.floor((length_padded - dilation * (kernel_size - 1) - 1) / stride + 1).item())
     return num_windows
@@ -54,6 +63,7 @@ def get_conv2d_output_size(shape:tuple, kernel_size, dilation, stride, padding) 
     (2, 2)
     """
     N, C, H, W = shape
+    check_geometry(kernel_size, stride, padding, dilation)
     
     kernel_size = np.broadcast_to(kernel_size, 2)
     dilation = np.broadcast_to(dilation, 2)
